@@ -96,15 +96,21 @@ impl BerHeader {
             n as usize
         } else {
             // Long form, X.690 pp 8.1.3.5
-            let mut ln = 0;
-            if (n & 0x7f) as usize > std::mem::size_of::<usize>() {
+            // Up to 126 length octets, leading zero octets are allowed,
+            // 0xff is reserved
+            let mut ln: usize = 0;
+            if n == 0xff {
                 return Err(Err::Failure(SnmpError::InvalidTagFormat));
             }
             for _ in 0..n & 0x7f {
                 if current >= i.len() {
                     return Err(Err::Incomplete(Needed::Unknown));
                 }
-                ln = (ln << 8) + (i[current] as usize);
+                if ln > (usize::MAX >> 8) {
+                    // Doesn't fit
+                    return Err(Err::Failure(SnmpError::InvalidTagFormat));
+                }
+                ln = (ln << 8) | (i[current] as usize);
                 current += 1;
             }
             ln
